@@ -41,6 +41,56 @@ def check_one(m: t.Any, suffixes: t.List[bytes]) -> t.Optional[t.Tuple[str, str]
     return None
 
 
+def options_history(ctx: evid.Ctx) -> None:
+    """Messages carrying application-registered types, round-tripped with ONE options object that has a history:
+    it decoded plain messages before the type was registered, and other types were registered in between."""
+    import sansldap as L
+    from sansldap._messages import PackingOptions
+
+    from vf.checks.c19 import ACred, FFilter, XControl
+
+    res = L.LDAPResult(L.LDAPResultCode.SUCCESS, "", "", None)
+    plain = [
+        L.SearchRequest(1, [L.ShowDeletedControl(True)], "", L.SearchScope.BASE, L.DereferencingPolicy.NEVER, 0, 0, False, L.FilterOr([L.FilterPresent("a"), L.FilterNot(L.FilterEquality("b", b"c"))]), []),
+        L.BindRequest(2, [], 3, "", L.SimpleCredential("p")),
+        L.SearchResultDone(3, [L.PagedResultControl(False, 1, b"c")], res),
+    ]
+    custom = {
+        "X": (lambda o: o.control.choices.append(XControl), L.SearchResultDone(4, [XControl(True, 7), L.ShowDeletedControl(False)], res)),
+        "F": (lambda o: o.filter.choices.append(FFilter), L.SearchRequest(5, [], "", L.SearchScope.BASE, L.DereferencingPolicy.NEVER, 0, 0, False, L.FilterAnd([L.FilterOr([FFilter("v"), L.FilterPresent("a")]), L.FilterNot(FFilter("w"))]), [])),
+        "A": (lambda o: o.authentication.choices.append(ACred), L.BindRequest(6, [], 3, "", ACred("u", "p"))),
+    }
+    import itertools
+
+    for order in itertools.permutations("XFA"):
+        for warm in (False, True):
+            opts = PackingOptions()
+            for k in order:
+                if warm:
+                    for m in plain:
+                        K.unpack(m.pack(opts), opts)
+                custom[k][0](opts)
+                for kk in order[: order.index(k) + 1]:
+                    m = custom[kk][1]
+                    ctx.add("states")
+                    ctx.add("transitions", 3)
+                    try:
+                        m2, rest = K.unpack(m.pack(opts), opts)
+                        bad = None if (m2 == m or K.messages_equal(m, m2, opts) is None) and rest == b"" and m2.pack(opts) == m.pack(opts) else "decoded message differs"
+                    except BaseException as e:  # noqa: BLE001
+                        bad = f"{type(e).__name__}: {e}"
+                    if bad:
+                        ctx.violation(f"registered-type-roundtrip:{kk}:{'after-decoding' if warm else 'fresh-options'}", f"options registered {order[: order.index(k) + 1]} ({'after' if warm else 'without'} earlier decodes): {type(m).__name__} with custom {kk}: {bad}", {"order": list(order), "warm": warm, "type": kk})
+                for m in plain:
+                    try:
+                        m2, rest = K.unpack(m.pack(opts), opts)
+                        ok = K.messages_equal(m, m2, opts) is None
+                    except BaseException:  # noqa: BLE001
+                        ok = False
+                    if not ok:
+                        ctx.violation(f"builtin-roundtrip-after-registration:{k}", f"after registering {k} a built-in {type(m).__name__} no longer round-trips", {"order": list(order), "warm": warm, "type": k})
+
+
 _STATE: t.Dict[str, t.Any] = {}
 
 
@@ -69,6 +119,13 @@ def run(ctx: evid.Ctx) -> None:
     ks = U.kinds(big=thorough, depth3=thorough)
     _STATE["kinds"] = ks
     _STATE["suffixes"] = SUFFIXES_THOROUGH if thorough else SUFFIXES_QUICK
+    for m in U.big_messages():
+        ctx.add("states")
+        ctx.add("transitions", 6)
+        r = check_one(m, SUFFIXES_QUICK)
+        if r:
+            ctx.violation(r[0], r[1], {"msg": A.src(m) if len(A.src(m)) < 2000 else None, "big": type(m).__name__})
+    options_history(ctx)
     jobs = U.jobs(ks, d)
     jobs.sort(key=lambda j: -U.job_size(ks, j))
     for loc in par.pmap(_work, jobs, ctx.seed):
@@ -89,6 +146,15 @@ def run(ctx: evid.Ctx) -> None:
 
 
 def replay(case: t.Dict[str, t.Any], key: t.Optional[str] = None) -> t.Tuple[bool, str]:
+    if "order" in case or case.get("msg") is None:
+        c = evid.Ctx("C01", "quick", 0)
+        options_history(c)
+        for m in U.big_messages():
+            r = check_one(m, SUFFIXES_QUICK)
+            if r:
+                c.violation(r[0], r[1], {})
+        hits = [v for k, v in c.viol.items() if key is None or k == key]
+        return (not hits), "\n".join(f"  {v['key']}: {v['what']}" for v in hits) or "registered-type and 64 KiB cases round-trip"
     m = A.unsrc(case["msg"])
     r = check_one(m, SUFFIXES_THOROUGH)
     if r is None:
